@@ -43,6 +43,7 @@ ASSUMPTIONS = [
     "the convergence bound is 1 + |nodes| + |values| + |initializers| + |functions| of the model before the first application",
     "a pass that raises on a model is counted, not flagged (the statement speaks about what a pass returns); analysis-only passes must leave the model unchanged also when they raise",
     "onnx.checker.check_model / onnx.shape_inference.infer_shapes are wrapped: the real C API runs unless a fault is armed",
+    "the ONNX C++ library segfaults on some protos with duplicated/missing names; CheckerPass and ShapeInferencePass are therefore scheduled only on models with well-formed names",
 ]
 REAL_STUB = {"real": ["all 19 passes in onnx_ir.passes.common", "PassBase / Sequential / PassManager / functionalize", "call_onnx_api", "serde", "onnx C API (checker, shape inference) when no fault is armed"], "stub": ["armed faults at the ONNX boundary"], "harness_extension_points": ["LazyTensor thunk that raises"]}
 
@@ -83,9 +84,13 @@ def gen_case(run_seed: int, tier: str, index: int = 0) -> dict:
         lazy_failing_init=r.random() < 0.15,
     )  # fmt: skip
     names = list(PASSES)
+    if params["name_noise"]:
+        # onnx's C++ checker / shape inference can segfault on protos with duplicated or missing names (not ir-py code):
+        # the C-API passes are scheduled only on models whose names are well formed
+        names = [n for n in names if n not in BOUNDARY]
     schedule = []
     for _ in range(r.choice([3, 4, 6, 8])):
-        p = r.choice(names) if r.random() < 0.7 else r.choice(["Checker", "ShapeInference"])
+        p = r.choice(names) if (r.random() < 0.7 or params["name_noise"]) else r.choice(["Checker", "ShapeInference"])
         step = {"pass": p, "opt": r.randrange(8), "mode": r.choice(MODES), "fault": None}
         if step["mode"] in ("sequential", "manager"):
             step["others"] = [[r.choice(names), r.randrange(8)] for _ in range(r.choice([1, 2]))]
@@ -328,7 +333,13 @@ def run_case(case: dict) -> dict:
                     viol = ("analysis-pass-changed-model", f"step {si} {name} (analysis only{', boundary fault' if fault_fired else ''}) changed the model: {str(d[:3])[:500]}", f"analysis-pass-changed-model|{name}|{d[0][1] if d else '?'}")
                 # ---- names needed for serialization are kept
                 if proto_before is not None and proto_after is None and viol is None:
-                    viol = ("no-longer-serializable", f"step {si} {name}/{mode}: the model serialized before the pass and does not afterwards", f"no-longer-serializable|{name}")
+                    unnamed_in_use = any(v is not None and not v.name for n in model.graph.all_nodes() for v in n.inputs) or any(not v.name for v in model.graph.outputs)
+                    if unnamed_in_use and case["params"].get("name_noise"):
+                        # a value that never had a name (and was not needed) became needed through the rewrite
+                        key = "no-longer-serializable|unnamed-value-became-used|model-with-missing-names"
+                    else:
+                        key = f"no-longer-serializable|{name}"
+                    viol = ("no-longer-serializable", f"step {si} {name}/{mode}: the model serialized before the pass and does not afterwards", key)
                 # ---- topological order is preserved
                 if sorted_before and not is_sorted(model) and viol is None:
                     viol = ("order-destroyed", f"step {si} {name}/{mode}: graphs were topologically ordered before the pass and are not afterwards", f"order-destroyed|{name}")
